@@ -989,7 +989,7 @@ func c3ReplayDir(ck *c3Checker, dir, out string) {
 
 func TestVerif_C03(t *testing.T) {
 	p := vk.Env()
-	res := vk.NewResult("every program of three bounded grammars (expression family: one expression of depth<=2 (thorough 3) in 6 statement templates; flow family: every statement list of length<=3 over the full statement alphabet and of length 4 (thorough: 4 and 5) over the small one; history family: every ordered pair of lists of length<=2 compiled by one Compiler as two HTTP routes; operand-order family: `$x = e1; $y = e2; > [x, y]` for every ordered pair of op(a, b), op any of the 13 operators, a != b from {p, q, \"b\"} not both literal; branches family: `prefix; if (p == 1) {T} else {E}; > [x, y]` for every ordered pair of blocks T (1..2 statements) and E (0..2 statements) over 7 fact-establishing/fact-reading statements and 2 prefixes; unit-sequence family: every ordered pair of the history corpus compiled by one Compiler as two handlers of one WebSocket route, two WebSocket routes, HTTP route then WebSocket route and the reverse, HTTP route then command / cron task / event handler / queue worker, and every ordered pair of single-statement corpus programs as every other ordered pair of handler types of one WebSocket route) x AST encodings {val, ptr, ptr-stmt/val-expr, val-stmt/ptr-expr, ptr-top/val-nested, only-i-ptr, only-i-val} x levels {OptNone, OptBasic, OptAggressive}; a case is non-trivial when some compilation's bytecode differs from the value-form unoptimised bytecode; those are executed for every assignment of {0,1,2,1.5,\"a\",true,false,null,[1]} to the free variable p and of these plus {\"b\",[2]} to the second free variable q")
+	res := vk.NewResult("every program of three bounded grammars (expression family: one expression of depth<=2 (thorough 3) in 6 statement templates; flow family: every statement list of length<=3 over the full statement alphabet and of length 4 (thorough: 4 and 5) over the small one; history family: every ordered pair of lists of length<=2 compiled by one Compiler as two HTTP routes; operand-order family: `$x = e1; $y = e2; > [x, y]` for every ordered pair of op(a, b), op any of the 13 operators, a != b from {p, q, \"b\"} not both literal; branches family: `prefix; if (p == 1) {T} else {E}; > [x, y]` for every ordered pair of blocks T (1..2 statements) and E (0..2 statements) over 7 fact-establishing/fact-reading statements and 2 prefixes; unit-sequence family: every ordered pair of the history corpus compiled by one Compiler as two handlers of one WebSocket route, two WebSocket routes, HTTP route then WebSocket route and the reverse, HTTP route then command / cron task / event handler / queue worker, and every ordered pair of single-statement corpus programs as every other ordered pair of handler types of one WebSocket route) x AST encodings {val, ptr, ptr-stmt/val-expr, val-stmt/ptr-expr, ptr-top/val-nested, only-i-ptr, only-i-val} x levels {OptNone, OptBasic, OptAggressive}; a case is non-trivial when some compilation's bytecode differs from the value-form unoptimised bytecode; those are executed for every assignment of {0,1,2,1.5,2.0,\"a\",true,false,null,[1]} to the free variable p and of these plus {\"b\",[2]} to the second free variable q")
 	ck := &c3Checker{res: res, p: p, levels: []OptimizationLevel{OptNone, OptBasic, OptAggressive},
 		kinds: map[string][]string{}, shrunk: map[string]c3Cand{}, keyOf: map[string]string{}, vm: vm.NewVM(),
 		ctxAlone: map[string]*c3CtxAlone{}, ctxDone: map[string]bool{}}
